@@ -70,6 +70,9 @@ struct vsbx_events
   uintptr_t last_grant_src = 0, last_deny_src = 0;
   uint64_t last_grant_num = 0, last_deny_num = 0;
   size_t last_grant_elsize = 0, last_deny_elsize = 0;
+  // typed entry points (like an indirect call in a wasm module): the signature the backend was told at registration
+  // differs in the size or float-ness of a parameter / result from the one guest code calls the entry point with
+  uint64_t entry_point_signature_mismatch = 0;
   void reset() { *this = vsbx_events{}; }
 };
 inline thread_local vsbx_events vsbx_ev;
@@ -212,6 +215,11 @@ class rlbox_vsbx_sandbox
   , public std::conditional_t<vsbx_detail::has_grant<Cfg>::value, vsbx_detail::grant_tag, vsbx_detail::no_grant_tag>
 {
 public:
+  // ---- harness switches (what kind of backend / sandboxed code this is; the plug-in hooks below consult them)
+  static inline bool strict_function_table = false; // harness switch, see impl_get_unsandboxed_pointer
+  static inline bool unconfined_translation = false; // harness switch: data pointers are base+representation, unmasked
+  static inline uint64_t hostile_malloc_repr = 0;    // harness switch: the sandbox's allocator answers with this representation
+
   using T_LongLongType = typename Cfg::LL;
   using T_LongType = typename Cfg::L;
   using T_IntType = typename Cfg::I;
@@ -249,6 +257,21 @@ public:
   const vsbx_library* lib = nullptr;
   void* callback_keys_[MAX_CALLBACKS]{};
   void* callback_fns_[MAX_CALLBACKS]{};
+  // machine-level signature of each entry point as told to impl_register_callback: per value its size, bit 7 = floating point
+  struct sigdesc { uint8_t n = 0; uint8_t d[24]{}; bool operator==(const sigdesc& o) const { return n == o.n && !std::memcmp(d, o.d, sizeof d); } };
+  sigdesc callback_sigs_[MAX_CALLBACKS]{};
+  template<typename T> static constexpr uint8_t sigcode()
+  {
+    if constexpr (std::is_void_v<T>) return 0;
+    else return static_cast<uint8_t>((sizeof(T) & 0x7f) | (std::is_floating_point_v<T> ? 0x80 : 0));
+  }
+  template<typename T_Ret, typename... T_Args> static sigdesc make_sig()
+  {
+    sigdesc r;
+    r.d[r.n++] = sigcode<T_Ret>();
+    ((r.n < 24 ? (void)(r.d[r.n++] = sigcode<T_Args>()) : (void)0), ...);
+    return r;
+  }
   static inline char cb_addr_tag[MAX_CALLBACKS]{};
   static inline thread_local tdata thread_data{ nullptr, 0 };
 
@@ -294,7 +317,6 @@ protected:
   inline void impl_reset_sandbox() { brk = 16; }
 
   // ---- pointer translation with context
-  static inline bool strict_function_table = false; // harness switch, see impl_get_unsandboxed_pointer
   template<typename T>
   inline void* impl_get_unsandboxed_pointer(T_PointerType p) const
   {
@@ -311,7 +333,9 @@ protected:
       if (strict_function_table) detail::dynamic_check(false, "vsbx: function table index out of range");
       return nullptr; // ... or answer "no such function"
     } else {
-      // any representation designates an in-region address (cf. a wasm heap)
+      // any representation designates an in-region address (cf. a wasm heap) ...
+      // ... unless the harness asks for the base+offset translation of the in-repo test backend, which confines nothing
+      if (unconfined_translation) return reinterpret_cast<void*>(base + static_cast<uintptr_t>(p));
       return reinterpret_cast<void*>(
         base + (static_cast<uintptr_t>(p) & (size - 1)));
     }
@@ -397,6 +421,7 @@ protected:
       vsbx_ev.mallocs++;
       return static_cast<T_PointerType>(64);
     }
+    if (hostile_malloc_repr) { vsbx_ev.mallocs++; return static_cast<T_PointerType>(hostile_malloc_repr); } // the allocator is sandboxed code
     size_t r = (sz + 7) & ~size_t(7);
     if (r < sz || r > size || brk + r > size) return 0;
     if (alloc_limit && brk + r > alloc_limit) return 0;
@@ -481,6 +506,7 @@ protected:
       if (!callback_keys_[i]) {
         callback_keys_[i] = key;
         callback_fns_[i] = callback;
+        callback_sigs_[i] = make_sig<T_Ret, T_Args...>();
         return static_cast<T_PointerType>(CB_TABLE_BASE + i);
       }
     }
@@ -531,6 +557,7 @@ public:
     uint32_t slot = static_cast<uint32_t>(fn - CB_TABLE_BASE);
     if (!slot_live(fn)) std::abort(); // guest trap: harness never does this
     thread_data.last_callback_invoked = slot;
+    if (!(callback_sigs_[slot] == make_sig<T_Ret, T_Args...>())) vsbx_ev.entry_point_signature_mismatch++;
     return reinterpret_cast<T_Ret (*)(T_Args...)>(callback_fns_[slot])(args...);
   }
 };
